@@ -123,17 +123,7 @@ impl<F: GeoFloat> ClosestPoint<F> for Coord<F> {
 }
 
 // ------------------------------------------------------------------ Line
-/// scalar division (ASSUMED, "machine arithmetic treated as mathematical"): never panics for floats; of the quotient
-/// only its position relative to 0 and 1 is assumed, for a positive divisor: a/b < 0 iff a < 0, a/b > 1 iff a > b
-pub trait DivTotal: CoordNum {
-    proof fn ax_div()
-        ensures
-            Self::obeys_div_spec(),
-            forall|a: Self, b: Self| #![trigger a.div_req(b)] a.div_req(b),
-            forall|a: Self, b: Self| #![trigger a.div_spec(b)] b.val() > 0 ==>
-                ((a.div_spec(b).val() < 0) == (a.val() < 0)) && ((a.div_spec(b).val() > 1) == (a.val() > b.val()));
-}
-pub trait GeoFloatD: GeoFloat + DivTotal {}
+pub trait GeoFloatD: GeoFloat {}
 
 impl<T: CoordNum> vstd::std_specs::ops::SubSpecImpl for Coord<T> {
     open spec fn obeys_sub_spec() -> bool { false }
